@@ -136,6 +136,7 @@ static void print_flags(int o) {
             << " R0L=" << (!g.marked_empty() && g.generators_are_up_to_date() && g.gen_sys.num_rows() > 0
                            && g.gen_sys[0].is_line())
             << " PBP=" << param_before_point(g)
+            << " LN=" << ((!g.marked_empty() && g.generators_are_up_to_date()) ? (long) g.gen_sys.num_lines() : -1L)
             << std::endl;
 }
 
